@@ -106,7 +106,14 @@ pub enum Step {
     CmdDisconnect,
     /// `t` lines only: `Command::ForcedKeepalive` is sent, then `tick()`
     CmdKeepalive,
+    /// `t` lines only: the peer writes `k` UPDATEs (of `n` withdrawals each) back to back and `tick()` is
+    /// called once per UPDATE while the application is NOT reading its channel (capacity APP_CAP); it
+    /// starts reading 20 ms later.  One record for the whole burst.
+    Burst(u8, u8),
 }
+
+/// capacity of the application channel on `t` lines (small, so that a burst fills it)
+const APP_CAP: usize = 4;
 
 fn parse_num(s: &str, max: u64) -> Option<u64> {
     if s.is_empty() || s.len() > 10 || !s.bytes().all(|c| c.is_ascii_digit()) || (s.len() > 1 && s.starts_with('0')) { return None; }
@@ -173,6 +180,7 @@ impl Step {
             Step::Close => "c".into(),
             Step::CmdDisconnect => "cD".into(),
             Step::CmdKeepalive => "cK".into(),
+            Step::Burst(k, n) => format!("bU:{}:{}", k, n),
         }
     }
 }
@@ -274,6 +282,8 @@ pub struct Live {
     old: Vec<(tokio::net::tcp::OwnedWriteHalf, tokio::net::TcpStream)>,
     dead: bool,
     real: bool,
+    /// application messages taken off the channel while a burst was being processed
+    side: Vec<Message>,
 }
 
 #[derive(Clone, Debug, PartialEq, Eq, PartialOrd, Ord)]
@@ -343,7 +353,7 @@ impl Live {
                 let peer = tokio::net::TcpStream::connect(r.addr).await.unwrap();
                 let (sock, _) = r.listener.accept().await.unwrap();
                 let (rd, wr) = sock.into_split();
-                let (app_tx, app_rx) = mpsc::channel(256);
+                let (app_tx, app_rx) = mpsc::channel(if real { APP_CAP } else { 256 });
                 let (cmd_tx, cmd_rx) = mpsc::channel(16);
                 let (pdu_tx, pdu_rx) = mpsc::channel(64);
                 let mut s = Session::new(VCfg(cfg), rd, app_tx, cmd_rx, pdu_tx);
@@ -353,7 +363,7 @@ impl Live {
                     s.verif_set_timers(init.crt, init.hold, init.ka, init.dop);
                     if !init.conn { let _ = s.verif_take_connection(); }
                 }
-                Live { s: Some(s), app: app_rx, pdus: pdu_rx, cmd: cmd_tx, _wr: wr, peer, old: Vec::new(), dead: false, real }
+                Live { s: Some(s), app: app_rx, pdus: pdu_rx, cmd: cmd_tx, _wr: wr, peer, old: Vec::new(), dead: false, real, side: Vec::new() }
             })
         })
     }
@@ -375,7 +385,9 @@ impl Live {
             });
         }
         let mut app = Vec::new();
-        while let Ok(m) = self.app.try_recv() {
+        let mut msgs: Vec<Message> = std::mem::take(&mut self.side);
+        while let Ok(m) = self.app.try_recv() { msgs.push(m); }
+        for m in msgs {
             app.push(match m {
                 Message::UpdateMessage(u) => format!("U{}", u.as_ref().len()),
                 Message::NotificationMessage(n) => { let b: &[u8] = n.as_ref(); format!("N{}.{}", b[19], b[20]) }
@@ -395,7 +407,7 @@ impl Live {
 
     pub fn step(&mut self, st: &Step) -> Out {
         if self.dead { return Out::Panic; }
-        enum Act { Ev(Event), Msg(BgpMsg<Bytes>), Start, Conn, Wire(Vec<u8>), Close, Attach, Cmd(Command) }
+        enum Act { Ev(Event), Msg(BgpMsg<Bytes>), Start, Conn, Wire(Vec<u8>), Close, Attach, Cmd(Command), Burst(Vec<u8>, u8) }
         let act = match st {
             Step::Ev(k, o) => {
                 let ev = match (*k, o) {
@@ -433,8 +445,14 @@ impl Live {
             Step::Close => { if !self.has_conn() { return Out::NoConn; } Act::Close }
             Step::CmdDisconnect => Act::Cmd(Command::Disconnect(routecore::bgp::fsm::session::DisconnectReason::Shutdown)),
             Step::CmdKeepalive => Act::Cmd(Command::ForcedKeepalive),
+            Step::Burst(k, n) => {
+                if !self.has_conn() { return Out::NoConn; }
+                let mut b = Vec::new();
+                for _ in 0..*k { b.extend(update_bytes(*n)); }
+                Act::Burst(b, *k)
+            }
         };
-        if matches!(act, Act::Wire(_) | Act::Close | Act::Cmd(_)) && !self.real { return Out::Unparsable; }
+        if matches!(act, Act::Wire(_) | Act::Close | Act::Cmd(_) | Act::Burst(..)) && !self.real { return Out::Unparsable; }
         if matches!(act, Act::Attach) {
             let (rd, wr, peer) = with_rt_of(self.real, |r| r.rt.block_on(async {
                 let peer = tokio::net::TcpStream::connect(r.addr).await.unwrap();
@@ -451,6 +469,7 @@ impl Live {
         let s = self.s.as_mut().unwrap();
         let peer = &mut self.peer;
         let cmd = &self.cmd;
+        let (app, side) = (&mut self.app, &mut self.side);
         let r = with_rt_of(self.real, |r| catch_unwind(AssertUnwindSafe(|| r.rt.block_on(async {
             use tokio::io::AsyncWriteExt;
             match act {
@@ -463,6 +482,32 @@ impl Live {
                 Act::Close => { let _ = peer.shutdown().await; tick_guarded(s).await }
                 // the command goes through the command channel; `tick()` takes it
                 Act::Cmd(c) => { cmd.send(c).await.unwrap(); tick_guarded(s).await }
+                // one tick per UPDATE; the application starts reading only after 20 ms, and reads until the
+                // ticks are done
+                Act::Burst(b, k) => {
+                    peer.write_all(&b).await.unwrap(); peer.flush().await.unwrap();
+                    let done = std::cell::Cell::new(false);
+                    let ticks = async {
+                        let mut res = Some(true);
+                        for _ in 0..k {
+                            res = tick_guarded(s).await;
+                            if res != Some(true) || !s.verif_snapshot().has_connection { break; }
+                        }
+                        done.set(true);
+                        res
+                    };
+                    let reader = async {
+                        tokio::time::sleep(std::time::Duration::from_millis(20)).await;
+                        loop {
+                            tokio::select! {
+                                m = app.recv() => match m { Some(m) => side.push(m), None => break },
+                                _ = tokio::time::sleep(std::time::Duration::from_millis(2)) => if done.get() { break },
+                            }
+                        }
+                    };
+                    let (res, _) = tokio::join!(ticks, reader);
+                    res
+                }
                 Act::Attach => unreachable!(),
             }
         }))));
@@ -491,6 +536,13 @@ fn parse_tick_step(t: &str) -> Option<Step> {
     if t == "c" { return Some(Step::Close); }
     if t == "cD" { return Some(Step::CmdDisconnect); }
     if t == "cK" { return Some(Step::CmdKeepalive); }
+    if let Some(rest) = t.strip_prefix("bU:") {
+        let p: Vec<&str> = rest.split(':').collect();
+        if p.len() != 2 { return None; }
+        let k = parse_num(p[0], 12)? as u8;
+        if k < 2 { return None; }
+        return Some(Step::Burst(k, parse_num(p[1], 200)? as u8));
+    }
     if let Some(rest) = t.strip_prefix('w') {
         return match Step::parse(&format!("m{}", rest))? { Step::MRefresh => None, m => Some(Step::Wire(Box::new(m))) };
     }
@@ -588,6 +640,7 @@ fn rfc_event(st: &Step, dop: bool, passive: bool) -> Option<u8> {
         // the application's stop command is ManualStop
         Step::CmdDisconnect => 2,
         Step::CmdKeepalive => return None,
+        Step::Burst(..) => 27,
     })
 }
 
@@ -731,7 +784,7 @@ fn random_open(rng: &mut Rng, malformed_ap: bool) -> OpenP {
 }
 
 fn step_kind(st: &Step, dop: bool) -> u8 {
-    match st { Step::Ev(k, _) => *k, Step::MOpen(_) => if dop { 20 } else { 12 }, Step::MKeep => 17, Step::MUpd(_) => 18,
+    match st { Step::Ev(k, _) => *k, Step::MOpen(_) => if dop { 20 } else { 12 }, Step::MKeep => 17, Step::MUpd(_) | Step::Burst(..) => 18,
         Step::MNotif(2, 1) => 15, Step::MNotif(..) => 16, Step::MRefresh | Step::Attach => 255, Step::AStart => 3, Step::AConn => 10,
         Step::Wire(inner) => step_kind(inner, dop), Step::Close => 11, Step::CmdDisconnect => 1, Step::CmdKeepalive => 255 }
 }
@@ -857,6 +910,8 @@ impl Prop for C08 {
             w(Step::MOpen(OK_OPEN())), w(Step::MOpen(BAD_OPEN())), w(Step::MOpen(OpenP { asn: 4_200_000_001, hold: 30, ap: vec![] })),
             w(Step::MOpen(OpenP { asn: 65001, hold: 0, ap: vec![] })), w(Step::MKeep), w(Step::MUpd(0)), w(Step::MUpd(2)),
             w(Step::MNotif(6, 2)), w(Step::MNotif(2, 1)), w(Step::MNotif(4, 0)), Step::Close, Step::CmdDisconnect, Step::CmdKeepalive,
+            // more UPDATEs back to back than the application channel holds, the application reading late
+            Step::Burst(8, 1), Step::Burst(5, 0), Step::Burst(12, 2),
         ];
         let prefixes: Vec<Vec<Step>> = vec![
             vec![], vec![Step::AStart], vec![Step::AStart, Step::AConn],
@@ -881,7 +936,7 @@ impl Prop for C08 {
                 steps.push(match rng.below(16) {
                     0..=2 => w(Step::MOpen(random_open(rng, false))),
                     3..=6 => w(Step::MKeep),
-                    7..=9 => w(Step::MUpd(rng.below(4) as u8)),
+                    7..=9 => if rng.chance(1, 4) { Step::Burst(rng.range(2, 12) as u8, rng.below(4) as u8) } else { w(Step::MUpd(rng.below(4) as u8)) },
                     10 => w(Step::MNotif(*rng.pick(&[2u8, 4, 6]), rng.below(3) as u8)),
                     11 => Step::Close,
                     12 => Step::AStart,
@@ -937,7 +992,9 @@ impl Prop for C08 {
                 }
             };
             let ev = rfc_event(step, dop, cfg.p);
-            let upd_n = match step { Step::MUpd(n) => Some(*n as usize), Step::Wire(inner) => match &**inner { Step::MUpd(n) => Some(*n as usize), _ => None }, _ => None };
+            let upd_n = match step { Step::MUpd(n) | Step::Burst(_, n) => Some(*n as usize), Step::Wire(inner) => match &**inner { Step::MUpd(n) => Some(*n as usize), _ => None }, _ => None };
+            // UPDATEs received in this step (a burst outside Established ends with its first UPDATE)
+            let upd_k = match step { Step::Burst(k, _) => *k as usize, _ => 1 };
             let is_msg_upd = upd_n.is_some();
             if let Some(ev) = ev {
                 // clause 1: next state
@@ -945,7 +1002,7 @@ impl Prop for C08 {
                     // K8: `tick` itself sets Connect after `handle_msg` returned Err and after the peer closed
                     // the connection (Connect is where it waits for Command::AttachStream).  Reported on the
                     // short lines whose last step it is (known_findings.jsonl lists them), passed over elsewhere.
-                    let k8 = tick_line && r.st == 2 && want != 2 && ((matches!(step, Step::Wire(_)) && !r.ok) || matches!(step, Step::Close));
+                    let k8 = tick_line && r.st == 2 && want != 2 && ((matches!(step, Step::Wire(_) | Step::Burst(..)) && !r.ok) || matches!(step, Step::Close));
                     if k8 {
                         if i + 1 == n_steps && n_steps <= 5 {
                             return Err(format!("step {} `{}`: {} --(RFC event {})--> Connect (set by Session::tick) but RFC 4271 8.2.2 prescribes {} [K8]", i, step.show(),
@@ -1001,11 +1058,11 @@ impl Prop for C08 {
             let fwd = r.app.iter().filter(|a| a.starts_with('U')).count();
             if is_msg_upd {
                 let n = upd_n.unwrap_or(0);
-                let want = if st == 6 { 1 } else { 0 };
+                let want = if st == 6 { upd_k } else { 0 };
                 if fwd != want {
-                    return Err(format!("step {} `{}`: UPDATE received in {} {} handed to the application", i, step.show(), STATE_NAMES[st as usize], if fwd > 0 { "was" } else { "was not" }));
+                    return Err(format!("step {} `{}`: {} UPDATE(s) received in {}, {} handed to the application", i, step.show(), upd_k, STATE_NAMES[st as usize], fwd));
                 }
-                if fwd == 1 && !r.app.contains(&format!("U{}", 23 + 4 * n)) {
+                if fwd >= 1 && r.app.iter().filter(|a| **a == format!("U{}", 23 + 4 * n)).count() != fwd {
                     return Err(format!("step {}: a different UPDATE was forwarded: {:?}", i, r.app));
                 }
             } else if fwd != 0 {
